@@ -229,10 +229,9 @@ def find_write_functions(spec):
                 prev = cur
         return sorted(changed_)
 
-    changed = _forked(pass1)
-    if not changed:
-        return {'paths': [], 'fns': []}
-    chset = set(changed)
+    changed = _forked(pass1) or []
+    # interpreter-wide settings are followed line by line in any case: a call may change one and restore it before it returns
+    chset = set(changed) | {p_ for p_, _ in state.interp_roots()}
 
     def pass2():
         shared_env, envs = build_envs(spec, cats)
